@@ -139,3 +139,52 @@ func TestC18RevokedUserWithTwoLoginsIsRefused(t *testing.T) {
 	_, err = ic.Set(w, &schema.SetRequest{KVs: []*schema.KeyValue{{Key: []byte("k"), Value: []byte("v2")}}})
 	require.Error(t, err, "a user whose permission was revoked is still allowed to write")
 }
+
+// signature unauthorized-change/txflow:tx-on-A-then-use-B/R-on-A: NewTx does no permission check and the
+// transaction stays bound to the database selected at NewTx, while the SQL engine checks every statement
+// against the database the session has selected at THAT time (multidbHandler.GetLoggedUser ->
+// getDBFromCtx). A user that is read-only on db A and read-write on db B opens a read-write transaction on A,
+// selects B, and its INSERT / CREATE TABLE are committed into A.
+// Fix: /verif/proposed/C18-newtx-readwrite-permission.patch
+func TestC18ReadOnlyUserWritesThroughSessionTransaction(t *testing.T) {
+	_, ic := c18Server(t)
+	bg := context.Background()
+	ss, err := ic.OpenSession(bg, &schema.OpenSessionRequest{Username: []byte("immudb"), Password: []byte("immudb"), DatabaseName: "defaultdb"})
+	require.NoError(t, err)
+	sys := metadata.NewOutgoingContext(bg, metadata.Pairs("sessionid", ss.SessionID))
+	for _, db := range []string{"dba", "dbb"} {
+		_, err = ic.CreateDatabaseV2(sys, &schema.CreateDatabaseRequest{Name: db})
+		require.NoError(t, err)
+	}
+	// read-only on dba, read-write on dbb (ChangePermission replaces all SQL privileges by those of the
+	// database it is called for, so SELECT on dba is granted again afterwards)
+	_, err = ic.CreateUser(sys, &schema.CreateUserRequest{User: []byte("reader"), Password: []byte("C18-Passw0rd!"), Permission: 1, Database: "dba"})
+	require.NoError(t, err)
+	_, err = ic.ChangePermission(sys, &schema.ChangePermissionRequest{Action: schema.PermissionAction_GRANT, Username: "reader", Database: "dbb", Permission: 2})
+	require.NoError(t, err)
+	_, err = ic.ChangeSQLPrivileges(sys, &schema.ChangeSQLPrivilegesRequest{Action: schema.PermissionAction_GRANT, Username: "reader", Database: "dba", Privileges: []string{"SELECT"}})
+	require.NoError(t, err)
+
+	sa, err := ic.OpenSession(bg, &schema.OpenSessionRequest{Username: []byte("immudb"), Password: []byte("immudb"), DatabaseName: "dba"})
+	require.NoError(t, err)
+	sysA := metadata.NewOutgoingContext(bg, metadata.Pairs("sessionid", sa.SessionID))
+	before, err := ic.CurrentState(sysA, &emptypb.Empty{})
+	require.NoError(t, err)
+
+	us, err := ic.OpenSession(bg, &schema.OpenSessionRequest{Username: []byte("reader"), Password: []byte("C18-Passw0rd!"), DatabaseName: "dba"})
+	require.NoError(t, err)
+	u := metadata.NewOutgoingContext(bg, metadata.Pairs("sessionid", us.SessionID))
+	tx, err := ic.NewTx(u, &schema.NewTxRequest{Mode: schema.TxMode_ReadWrite})
+	if err == nil {
+		_, err = ic.UseDatabase(u, &schema.Database{DatabaseName: "dbb"})
+		require.NoError(t, err)
+		utx := metadata.NewOutgoingContext(bg, metadata.Pairs("sessionid", us.SessionID, "transactionid", tx.TransactionID))
+		ic.TxSQLExec(utx, &schema.SQLExecRequest{Sql: "CREATE TABLE leaked(id INTEGER, PRIMARY KEY id); UPSERT INTO leaked(id) VALUES (1);"})
+		ic.Commit(utx, &emptypb.Empty{})
+	}
+
+	after, err := ic.CurrentState(sysA, &emptypb.Empty{})
+	require.NoError(t, err)
+	require.Equal(t, "dba", after.Db)
+	require.Equal(t, before.TxId, after.TxId, "a user with read-only permission on dba committed a transaction into dba")
+}
